@@ -13,13 +13,14 @@ executes Parallel.__call__/next()/close(), W<n> = one short-lived thread per
 completion.  D is event driven (self.evq) and never blocks on joblib.
 
 Scenario spec (JSON):
- {"n_jobs": 2..4, "batch_size": int|"auto", "auto_sizes": [ints], "pre_dispatch": "all"|int|str,
+ {"n_jobs": 2..6, "batch_size": int|"auto", "auto_sizes": [ints], "pre_dispatch": "all"|int|str,
   "return_as": "list"|"generator"|"generator_unordered", "managed": bool,
   "input": "list"|"generator"|"iterator", "timeout": null|seconds,
   "calls": [ {"n": int, "fail": {"<idx>": exc_id}, "iter_fail": null|pos, "never": [job ordinals],
               "sync": [job ordinals], "steps": [[op, ...]], "gates": [{"gate": g, "at": k, "do": [[op, ...]]}]} ]}
  step ops: ["c", pick]  complete the (pick mod #inflight)-th in-flight job of the current call
            ["late", pick] complete a job left over from an earlier (aborted) call
+   call["late_before"] = [picks]: complete left-over jobs before this call starts (between two calls)
            ["next"] ["close"] ["drop"] ["recall"] ["exhaust"]  consumer actions (generator modes)
 """
 
@@ -590,6 +591,14 @@ def _run_call(eng, par, k, call, gen_mode):
     base = 1000 * k
     rec = {"k": k, "n": call["n"], "base": base, "outcome": None, "results": None, "exception": None,
            "consumer": [], "forced": 0, "steps_done": 0}
+    # completions of batches abandoned by an earlier (failed / closed) call that arrive BETWEEN two calls: the backend
+    # could not kill them, the previous call's id and abort flag are still in force
+    for pick in call.get("late_before", []):
+        lo = eng.leftovers()
+        if not lo or eng.hang:
+            break
+        if not _complete_one(eng, lo[pick % len(lo)], late=True):
+            break
     eng.ev("call_start")
     if gen_mode:
         # the generator object is only ever referenced from eng.gen_holder, and only touched
@@ -653,7 +662,8 @@ def _run_call(eng, par, k, call, gen_mode):
     ordered = eng.spec["return_as"] == "generator"
 
     def free_m(why):
-        eng.release_parked()
+        # a pending consumer action may depend on dispatches that only a parked callback performs
+        eng.release_parked(next_call=eng.m_busy is not None)
         if eng.m_busy is None:
             collect()
             return True
@@ -719,7 +729,10 @@ def _run_call(eng, par, k, call, gen_mode):
         if eng.hang:
             break
         op = step[0]
-        eng.park_next_call_ok = (si + 1 < len(steps) and steps[si + 1][0] in ("close", "drop") and k + 1 < len(eng.spec["calls"]))
+        # ... and no consumer action is under way that needs this call's remaining batches (an exhaust/next waiting for
+        # tasks that only the parked callback would dispatch could never return)
+        eng.park_next_call_ok = (si + 1 < len(steps) and steps[si + 1][0] in ("close", "drop") and k + 1 < len(eng.spec["calls"])
+                                 and eng.m_busy is None)
         if op in ("c", "late"):
             eng.release_parked()
         if op == "c":
